@@ -135,6 +135,60 @@ fn run_scale(bytes: &[u8], ctx: &Ctx) -> CaseInfo {
     info
 }
 
+/// Constraints that become duplicates of (or subsumed by) one another only once a variable nested
+/// inside them is bound by a later unification: `x != [a], a == 1, x != [1]`. Normalisation then
+/// happens late (when the constraints are re-run or deep-walked at reification) and every
+/// constraint it drops must still be reported through take_constraint.
+fn run_late_duplicates(bytes: &[u8], ctx: &Ctx) -> CaseInfo {
+    use crate::ast::{Kind, VarId};
+    let mut s = Source::new(bytes);
+    let nq = 2;
+    let (a, b) = (Term::Var(2), Term::Var(3));
+    let qv = |s: &mut Source| Term::Var(s.below(nq) as VarId);
+    let mut goals: Vec<Goal> = vec![];
+    let k = 1 + s.below(3);
+    for _ in 0..k {
+        let x = qv(&mut s);
+        let inner = if s.flag(128) { a.clone() } else { b.clone() };
+        let c = Term::Int(s.range(0, 2));
+        let shape = s.below(5);
+        let build = |v: &Term| -> Term {
+            match shape {
+                0 => Term::list(vec![v.clone()]),
+                1 => Term::list(vec![Term::Int(1), v.clone()]),
+                2 => Term::Cmp(Kind::Pair, vec![v.clone(), Term::Int(0)]),
+                3 => Term::cons(v.clone(), Term::Nil),
+                _ => Term::list(vec![Term::list(vec![v.clone()])]),
+            }
+        };
+        let d1 = Goal::Diseq(x.clone(), build(&inner));
+        let d2 = if s.flag(200) { Goal::Diseq(x.clone(), build(&c)) } else { Goal::Diseq(build(&c), x.clone()) };
+        let e = if s.flag(128) { Goal::Eq(inner.clone(), c.clone()) } else { Goal::Eq(c.clone(), inner.clone()) };
+        let trio = match s.weighted(&[3, 2, 2, 1]) {
+            0 => vec![d1, e, d2],
+            1 => vec![d1, d2, e],
+            2 => vec![d2, d1, e],
+            _ => vec![e, d1, d2],
+        };
+        goals.extend(trio);
+    }
+    // unrelated goals in between
+    let extra = s.below(3);
+    for _ in 0..extra {
+        let g = match s.below(3) {
+            0 => Goal::Diseq(qv(&mut s), Term::Int(s.range(0, 3))),
+            1 => Goal::Eq(qv(&mut s), Term::list(vec![Term::Int(s.range(0, 2))])),
+            _ => Goal::Conde(vec![vec![Goal::Eq(qv(&mut s), Term::Int(7))], vec![Goal::Succeed]]),
+        };
+        let at = s.below(goals.len() + 1);
+        goals.insert(at, g);
+    }
+    let p = Program { nq, body: vec![Goal::Fresh(vec![2, 3], goals)] };
+    let mut info = eval(&p, true, ctx);
+    info.class("late-duplicates");
+    info
+}
+
 fn fixed_example(ctx: &Ctx) -> CaseInfo {
     // x != 5, [x, y] != [5, 6], [x, y] != [5, 6]   (property text)
     let (x, y) = (Term::Var(0), Term::Var(1));
@@ -166,6 +220,7 @@ pub fn def() -> PropertyDef {
             Family { name: "tree", max_len: 160, quick: 120_000, thorough: 3_000_000, run: run_tree },
             Family { name: "fd", max_len: 160, quick: 100_000, thorough: 2_000_000, run: run_fd },
             Family { name: "scale", max_len: 96, quick: 6_000, thorough: 100_000, run: run_scale },
+            Family { name: "late-duplicates", max_len: 64, quick: 60_000, thorough: 1_000_000, run: run_late_duplicates },
         ],
         fixed: vec![Fixed { name: "property-text-example", run: fixed_example }, Fixed { name: "weaker-then-stronger-then-binding", run: fixed_replace }],
         witnesses: vec![],
